@@ -75,7 +75,7 @@ CLAIMED = {
             "deterministic simulation with fault injection: well-formed fixed files with one character deleted / inserted / "
             "replaced, random strings, three ways in (StringIO, chunked stream, path), a prior reader abandoned in the same "
             "process; RefFixed enumerates all parses as oracle; bounded sweep of all short strings",
-            "Seeded search plus exhaustive sweep of all strings up to length 4 (quick) / 7 (thorough) over {a,b,CR,LF} x 39 "
+            "Seeded search plus exhaustive sweep of all strings up to length 5 (quick) / 9 (thorough) over {a,b,CR,LF} x 39 "
             "width lists x 5 settings; evidence, not proof beyond the swept sub-space.",
             "Under 'any' an input whose maximal-munch parse is invalid but which has another parse may be accepted or "
             "rejected.",
